@@ -541,7 +541,7 @@ theorem bridge_nodes {M : Model} {li : LexIn} (h : Agree M li) (hl : LookAgree M
   subst hsrc
   obtain ⟨insts, hi⟩ := hall lid a w hwa
   have v := arcView h hl hwa
-  obtain ⟨wid, hwid, hwd⟩ := v.wid
+  obtain ⟨wid, hwid, hwd, hw⟩ := v.wid
   refine ⟨lid, a, w, insts, hwa, hi, ?_⟩
   unfold SingleS FillerS RootS InternalS LeafS at hk
   simp only [v.pron, v.filler, v.logp, v.dst] at hk
@@ -561,8 +561,8 @@ theorem bridge_nodes {M : Model} {li : LexIn} (h : Agree M li) (hl : LookAgree M
     obtain ⟨ss, hss', hye⟩ := hfy
     subst hye
     refine ⟨_, hy, ⟨f1, f2, ?_, ?_, ?_, fun _ => f3, fun _ => f7, fun c' hc' => ?_, fun c' hc' => (by cases hc')⟩, Or.inl rfl⟩
-    · rw [hss]; exact hl.single p c ss hss'
-    · rw [f5]; exact hl.ciTmat p tmv htm
+    · rw [hss]; exact hw.single' hp (ctxList_lt hcl) hss'
+    · rw [f5]; exact hw.ciTmat'' hp (k := 0) (by simp) htm
     · rw [f6, shift_eq hl, hl.wip, hl.pip]
     · simp only [Option.some.injEq] at hc'
       subst hc'; exact hc
@@ -576,8 +576,8 @@ theorem bridge_nodes {M : Model} {li : LexIn} (h : Agree M li) (hl : LookAgree M
     subst hins
     refine Or.inl ⟨_, List.mem_singleton.2 rfl, ⟨f1, f2, ?_, ?_, ?_, fun _ => f3, fun _ => (by rw [f7]; exact h.sil),
       fun c' hc' => (by cases hc'), fun c' hc' => (by cases hc')⟩, rfl, rfl⟩
-    · rw [f4]; exact hl.ciSsid p ss hss
-    · rw [f5]; exact hl.ciTmat p tmv htm
+    · rw [f4]; exact hw.ciSsid' hp hss
+    · rw [f5]; exact hw.ciTmat'' hp (k := 0) (by simp) htm
     · rw [f6, shift_eq hl, hl.wip, hl.pip]
   · -- word-initial
     obtain ⟨p0, p1, rest, hp⟩ := pron_two h1
@@ -587,8 +587,8 @@ theorem bridge_nodes {M : Model} {li : LexIn} (h : Agree M li) (hl : LookAgree M
     obtain ⟨hcl, hss⟩ := h4 c hc
     obtain ⟨ss, tm0, hss', htm0, hmem⟩ := (multi_insts hp hi).1 c ((lc_iff h v.src c).1 hcl)
     refine ⟨_, hmem, ⟨f1, f2, ?_, ?_, ?_, fun hc' => (by cases hc'), fun _ => f7, fun c' hc' => ?_, fun c' hc' => (by cases hc')⟩, Or.inl rfl⟩
-    · rw [hss]; exact hl.begin_ p0 c p1 ss hss'
-    · rw [f5]; exact hl.ciTmat p0 tm0 htm0
+    · rw [hss]; exact hw.begin' hp (ctxList_lt hcl) hss'
+    · rw [f5]; exact hw.ciTmat'' hp (k := 0) (by simp) htm0
     · rw [f6, hl.wip, hl.pip]
     · simp only [Option.some.injEq] at hc'
       subst hc'; exact hc
@@ -601,8 +601,8 @@ theorem bridge_nodes {M : Model} {li : LexIn} (h : Agree M li) (hl : LookAgree M
     obtain ⟨ss, tmv, hss, htm, hmem⟩ := (multi_insts hp hi).2.1 k (by omega)
     refine Or.inl ⟨_, hmem, ⟨f1, f2, ?_, ?_, ?_, fun hc' => (by cases hc'), fun hc' => (by rcases hc' with hc' | hc' <;> cases hc'),
       fun c' hc' => (by cases hc'), fun c' hc' => (by cases hc')⟩, rfl, rfl⟩
-    · rw [f4]; exact hl.internal wid w k ss hwd (by rw [hp]; exact hss)
-    · rw [f5]; exact hl.ciTmat _ tmv htm
+    · rw [f4]; exact hw.internal' (k := k) (by rw [hp]; omega) (by rw [hp]; exact hss)
+    · rw [f5]; exact hw.ciTmat'' hp (k := k + 1) (by omega) htm
     · rw [f6, hl.pip]
   · -- word-final
     obtain ⟨p0, p1, rest, hp⟩ := pron_two h1
@@ -612,8 +612,8 @@ theorem bridge_nodes {M : Model} {li : LexIn} (h : Agree M li) (hl : LookAgree M
     obtain ⟨hcl, hss⟩ := h4 c hc
     obtain ⟨ss, tml, hss', html, hmem⟩ := (multi_insts hp hi).2.2 c ((rc_iff h v.dstLt c).1 hcl)
     refine ⟨_, hmem, ⟨f1, f2, ?_, ?_, ?_, fun _ => f3, fun _ => f7, fun c' hc' => (by cases hc'), fun c' hc' => ?_⟩, Or.inr rfl⟩
-    · rw [hss]; exact hl.final _ _ c ss hss'
-    · rw [f5]; exact hl.ciTmat _ tml html
+    · rw [hss]; exact hw.final' hp (ctxList_lt hcl) hss'
+    · rw [f5]; exact hw.ciTmat'' hp (k := (p0 :: p1 :: rest).length - 1) (by simp) html
     · rw [f6, shift_eq hl, hl.pip]
     · simp only [Option.some.injEq] at hc'
       subst hc'; exact hc
